@@ -24,6 +24,11 @@ def plan(tier, seed):
     specs.append(dict(name="frontend", mode="interp", what="frontend", n=3 if tier == "quick" else 12, seed=[seed, 1010, 0]))
     for p in range(3):
         specs.append(dict(name="large-%d" % p, mode="interp", what="large", part=p, parts=3, seed=[seed, 1011, p]))
+    # the same helpers and front ends in an interpreter started with -O (assert statements compiled away)
+    opt = {"PYTHONOPTIMIZE": "1"}
+    specs.append(dict(name="multi-O", mode="interp", what="multi", n=tuples // parts, seed=[seed, 110, 97], env=opt))
+    specs.append(dict(name="frontend-O", mode="interp", what="frontend", n=3 if tier == "quick" else 12, seed=[seed, 1010, 97], env=opt))
+    specs.append(dict(name="grid-O", mode="interp", what="grid", part=3, parts=parts, fills=1, seed=[seed, 10, 97], env=opt))
     return specs
 
 
@@ -123,7 +128,7 @@ def run_grid(spec, res):
             res.count("fill:" + kind)
         if W >= 2:
             res.nontriv("T%d-W%d-N%d" % (T, W, N))
-        res.count("shapes")
+        res.count("shapes_under_python_O" if spec.get("env") else "shapes")
     res.sample(dict(what="grid", first_shapes=mine[:5], fills=spec["fills"]))
 
 
